@@ -30,3 +30,14 @@ let () =
         | _ -> Diff "model encoder refuses the header"
       end
     | _ -> Diff "malformed line")
+
+let () =
+  (* C20D: a conn whose SetDeadline calls fail *)
+  register "C20D" (fun i o -> match i, o with
+    | [kind; _tmo; full], [cls; closed] ->
+      if cls = "hang" || cls = "panic" then Viol ("Dial over a conn without deadline support: " ^ cls)
+      else if cls <> "nil" && closed <> "1" then Viol (Printf.sprintf "Dial returned a non-nil error without closing the conn (its SetDeadline fails; context: %s)" kind)
+      else if cls = "nil" && full <> "1" then Viol "Dial reported success although the response was cut"
+      else if cls = "nil" && closed = "1" then Viol "Dial returned a nil error with a conn it has closed"
+      else Pass true
+    | _ -> Diff "malformed line")
